@@ -5,6 +5,7 @@ import (
 	"runtime"
 	"sort"
 	"sync"
+	"sync/atomic"
 	"time"
 
 	txfile "github.com/elastic/go-txfile"
@@ -16,6 +17,7 @@ import (
 
 // Env is one real file on one simulated disk plus the recorder of its trace.
 type Env struct {
+	Tick *int64 // progress counter of the driver's watchdog (optional)
 	Disk *simdisk.Disk
 	F    *txfile.File
 	PS   int
@@ -105,6 +107,9 @@ func (e *Env) Events() []core.Event {
 
 // Emit appends an event.
 func (e *Env) Emit(ev core.Event) {
+	if e.Tick != nil {
+		atomic.AddInt64(e.Tick, 1)
+	}
 	if !e.Record {
 		return
 	}
